@@ -200,6 +200,75 @@ def degenerate_cell(desc):
     return Atoms(numbers=rng.choice([6, 8, 29], n), positions=pos, cell=cell, pbc=desc["pbc"])
 
 
+ROCKSALT = {("Na", "Cl"): 5.64, ("Na", "Br"): 5.97, ("Li", "Br"): 5.50, ("K", "Cl"): 6.29, ("Li", "Cl"): 5.13, ("Mg", "O"): 4.21,
+            ("Ca", "O"): 4.81, ("Na", "F"): 4.63, ("Li", "F"): 4.03, ("K", "Br"): 6.60}
+
+
+def rocksalt_stack(desc):
+    """AX slab under BX slab with a shared anion and cation exchanges at the interface (overlapping regions)"""
+    from ase.build import bulk
+
+    rng = rng_for("rsstack", sorted(desc.items()))
+    a0 = desc["a"]
+    bot = bulk(desc["A"] + desc["X"], "rocksalt", a=a0, cubic=True).repeat(desc["reps_a"])
+    top = bulk(desc["B"] + desc["X"], "rocksalt", a=a0, cubic=True).repeat(desc["reps_b"])
+    top.translate([0, 0, bot.cell[2, 2]])
+    s = bot + top
+    cell = bot.cell[:].copy()
+    cell[2, 2] = bot.cell[2, 2] + top.cell[2, 2] + desc.get("vacuum", 8.0)
+    s.set_cell(cell)
+    s.set_pbc(desc["pbc"])
+    nums = s.numbers.copy()
+    za, zb = bot.numbers[0], top.numbers[0]
+    ia = [i for i in range(len(bot)) if nums[i] == za]
+    ib = [i for i in range(len(bot), len(s)) if nums[i] == zb]
+    for _ in range(desc.get("exchanges", 0)):
+        nums[int(rng.choice(ia))] = zb
+        nums[int(rng.choice(ib))] = za
+    s.numbers = nums
+    if desc.get("noise"):
+        s.rattle(desc["noise"] / np.sqrt(3), seed=int(rng.integers(2 ** 31)))
+    return s, len(bot)
+
+
+def crystallite(desc):
+    """finite (or partially periodic) crystallite of a given lattice with noise and vacancies"""
+    from ase.build import bulk
+
+    rng = rng_for("crystallite", sorted(desc.items()))
+    u = bulk(desc["el"], desc["lattice"], a=desc["a"], cubic=True)
+    s = u.repeat(desc["reps"])
+    if desc.get("vacancies"):
+        keep = np.ones(len(s), bool)
+        keep[rng.choice(len(s), desc["vacancies"], replace=False)] = False
+        s = s[keep]
+    pbc = desc["pbc"]
+    cell = s.cell[:].copy()
+    for i in range(3):
+        if not pbc[i]:
+            cell[i] *= 2.0
+    s.set_cell(cell)
+    s.set_pbc(pbc)
+    s.center()
+    if desc.get("noise"):
+        s.positions += rng.normal(scale=desc["noise"] / np.sqrt(3), size=s.positions.shape)
+    return s
+
+
+def repo_data(desc):
+    import os
+
+    import ase.io
+
+    from .common import REPO
+
+    path = os.path.join(REPO, "tests", "data", desc["file"])
+    a = ase.io.read(path)
+    if desc.get("pbc") is not None:
+        a.set_pbc(desc["pbc"])
+    return a
+
+
 def c01_family(tier):
     """list of (kind, descriptor) covering the C01 quantifier; deterministic"""
     fam = []
@@ -229,6 +298,11 @@ def c01_family(tier):
                 continue
             fam.append(("slabads", {"el": el, "facet": facet, "layers": 3 + (i + j) % 2, "size": 3 + (i % 2), "n_ads": (i + j) % 3,
                                     "height": 1.4 + 0.3 * (j % 3), "pbc": PBCS[7 - (i + j) % 2 * 1][::1], "noise": 0.03 * (j % 2), "i": i * 3 + j}))
+    # same-species adatoms lifted off the surface: members of the periodic region whose bonding is marginal
+    for i, el in enumerate(["Cu", "Al"] if not big else ["Cu", "Al", "Pt", "Ag", "Ni"]):
+        for j, h in enumerate([2.0, 2.4, 2.8]):
+            fam.append(("slabads", {"el": el, "facet": facets[(i + j) % 2], "layers": 3, "size": 4, "n_ads": 1 + j % 2, "ads": el,
+                                    "height": h, "pbc": (True, True, True), "noise": 0.0, "i": 100 + i * 3 + j}))
     pairs = [("Cu", "Ni"), ("Ag", "Au"), ("Pd", "Pt"), ("Al", "Au")] if not big else [
         (A, B) for A in FCC for B in FCC if A != B and abs(FCC[A] - FCC[B]) / FCC[A] < 0.05]
     for i, (A, B) in enumerate(pairs):
@@ -243,6 +317,31 @@ def c01_family(tier):
         if not big and i % 2:
             continue
         fam.append(("mol", {"n_mol": 2 + i % 4, "pbc": pbc, "L": 9.0 + i, "cell": cells[i % 3], "i": i}))
+    rs = [("Na", "Li", "Br", 5.56), ("K", "Li", "Cl", 6.0), ("Na", "K", "Cl", 5.9), ("Mg", "Ca", "O", 4.5)]
+    for i, (A, B, X, a0) in enumerate(rs if not big else rs + [("Na", "Li", "F", 4.3), ("K", "Na", "Br", 6.3)]):
+        for j, pbc in enumerate([(True, True, True), (False, True, True), (True, True, False)]):
+            if not big and (i + j) % 2:
+                continue
+            fam.append(("rsstack", {"A": A, "B": B, "X": X, "a": a0, "reps_a": (1 + j % 2, 1 + (i + j) % 2, 1), "reps_b": (1 + j % 2, 1 + (i + j) % 2, 1 + i % 2),
+                                    "pbc": pbc, "exchanges": (i + j) % 3, "noise": 0.02 * (i % 2), "i": i * 3 + j}))
+    cr = [("Si", "diamond", 5.43), ("Cu", "fcc", 3.61), ("Fe", "bcc", 2.87), ("C", "diamond", 3.57)]
+    for i, (el, lat, a0) in enumerate(cr):
+        for j, pbc in enumerate([(False, False, False), (True, False, False), (True, True, False)]):
+            if not big and (i + j) % 2 == 0 and j:
+                continue
+            fam.append(("crystallite", {"el": el, "lattice": lat, "a": a0, "reps": (3, 3, 3) if lat != "diamond" else (2, 2, 3) if not big else (3, 3, 3),
+                                        "pbc": pbc, "vacancies": [0, 3, 7][(i + j) % 3], "noise": [0.0, 0.12, 0.25][(i + 2 * j) % 3], "i": i * 3 + j}))
+    import os
+
+    from .common import REPO
+
+    dd = os.path.join(REPO, "tests", "data")
+    if os.path.isdir(dd):
+        files = sorted(f for f in os.listdir(dd) if f.endswith("xyz"))
+        for i, f in enumerate(files):
+            if not big and f not in ("system-CVC.extxyz", "system-BNPbSeBN.xyz", "cu55.xyz"):
+                continue
+            fam.append(("repodata", {"file": f, "i": i}))
     for i, (zero, pbc) in enumerate([((2,), (True, True, False)), ((1, 2), (True, False, False)), ((0, 1, 2), (False, False, False)),
                                      ((0,), (False, True, True)), ((2,), (True, True, True)), ((0, 1), (True, False, False))]):
         fam.append(("degen", {"n": 6 + i, "zero_axes": zero, "pbc": pbc, "i": i}))
@@ -268,4 +367,11 @@ def build(kind, desc):
         return molecules_in_box(desc), {}
     if kind == "degen":
         return degenerate_cell(desc), {}
+    if kind == "rsstack":
+        a, nb = rocksalt_stack(desc)
+        return a, {"n_bottom": nb}
+    if kind == "crystallite":
+        return crystallite(desc), {}
+    if kind == "repodata":
+        return repo_data(desc), {}
     raise ValueError(kind)
